@@ -161,8 +161,12 @@ class Transport:
         self.data = b''
         self.writes = []
         self.closed = False
+        self.late = b''  # bytes written after the connection was closed
 
     def write(self, b):
+        if self.closed:
+            self.late += b
+            return
         self.data += b
         self.writes.append(b)
 
